@@ -422,10 +422,19 @@ package task
 // ACTIVE, then all requested tasks - and by nothing else (in particular not by the status of tasks nobody asked about,
 // which may be owned by another environment and only momentarily INACTIVE).
 //@ func (m *Manager) doKillTasks(tasks Tasks) (killed Tasks, running Tasks, err error)
-//@   property C04
+//@   property C04 C06
 //@   ghostvar nfilt int = 0
 //@   ghostvar inactiveSel Tasks = nil
 //@   ghostvar gotInactive bool = false
+// C06 (every task the destroyed environment ever owned has been asked to terminate): each ACTIVE task of the list gets
+// its KILL, in order, whatever happened to the ones before it - a KILL that fails does not end the walk
+//@   ghostvar act Tasks = nil
+//@   ghostvar gotAct bool = false
+//@   ghostvar nKill int = 0
+//@   [C06] on aftercall (Tasks).Filtered when gotInactive : act = result ; gotAct = true
+//@   [C06] on call (*Manager).doKillTask : assert gotAct && 0 <= nKill && nKill < len(act) && arg1 == act[nKill] ; nKill = nKill + 1
+//@   [C06] loop 1 invariant gotAct && #i >= -1 && #i < len(act) && nKill == #i + 1
+//@   [C06] ensures gotAct && nKill == len(act)
 //@   on call (Tasks).Filtered when !gotInactive : assert arg0 == tasks && argfunc1 == "(*core/task.Manager).doKillTasks$1"
 //@   on aftercall (Tasks).Filtered when !gotInactive : inactiveSel = result ; gotInactive = true
 //@   on call (*roster).retain when nfilt == 0 : assert gotInactive && argfunc1 == "(*core/task.Manager).doKillTasks$2"
